@@ -14,10 +14,12 @@ structure D where
   mStreams : Nat
   mLastRecv : Option Msg               -- the response the implementation consumed during this op
   mQueue : List Msg                    -- responses injected, not yet consumed (per the implementation's `unread=`)
+  mFc : Bool                           -- a consumed response whose watchers are not done yet
+  mFcViol : Bool
 
 def dinit : D :=
   let (s, _, evs) := settle 64 (GrpcModel.Ads.init 1000) [] []
-  ⟨s, evs, [], [], [], 0, none, []⟩
+  ⟨s, evs, [], [], [], 0, none, [], false, false⟩
 
 def showReq (r : Req) : String :=
   let v := if r.version = "" then "-" else r.version
@@ -97,6 +99,9 @@ def consume (d : D) (impl : String) : D :=
   | none => d
   | some u =>
     let k := d.mQueue.length - u
+    -- flow control: a response may be read only when the previous one has been fully processed
+    let d := if k > 1 ∨ (k = 1 ∧ d.mFc) then { d with mFcViol := true } else d
+    let d := if k ≥ 1 then { d with mFc := true } else d
     let rec go (d : D) (k : Nat) : D :=
       match k, d.mQueue with
       | 0, _ => d
@@ -121,9 +126,12 @@ def dstep : Step D := fun d fs impl =>
     let d := { d with mLastRecv := none }
     let d := match op with
       | .sub t n => { d with mSubs := assoc d.mSubs t (insertSorted n ((lookup d.mSubs t).getD [])) }
-      | .unsub t n => { d with mSubs := assoc d.mSubs t (((lookup d.mSubs t).getD []).filter (· ≠ n)) }
+      | .unsub t n => match lookup d.mSubs t with
+        | some l => { d with mSubs := assoc d.mSubs t (l.filter (· ≠ n)) }
+        | none => d          -- unsubscribe of a type never subscribed creates no type state
       | .recv m => if impl = "nostream" then d else { d with mQueue := d.mQueue ++ [m] }
       | .brk => { d with mQueue := [] }
+      | .done => { d with mFc := false }
       | _ => d
     -- a new stream resets the nonces BEFORE anything read on it is accounted
     let streams := ((fieldOf impl "streams") >>= String.toNat?).getD d.mStreams
@@ -131,6 +139,7 @@ def dstep : Step D := fun d fs impl =>
     let dm := if newStream then d else consume d impl
     let (dm, v) := monitor dm impl
     let dm := if newStream then consume dm impl else dm
+    let v := if dm.mFcViol ∧ v = "ok" then "VIOL a response was read while the watchers were still processing the previous one" else v
     match op with
     | .recv _ =>
       if !d.s.live then (dm, "nostream", v) else
